@@ -3587,12 +3587,12 @@ class State:
 
             if not self.card_burning_status:
                 if Automation.HOLE_DEALING in self.automations:
-                    while any(self.hole_dealing_statuses):
+                    while self.can_deal_hole():
                         self.deal_hole()
 
                 if (
                         Automation.BOARD_DEALING in self.automations
-                        and any(self.board_dealing_counts)
+                        and self.can_deal_board()
                 ):
                     self.deal_board()
 
